@@ -6,6 +6,7 @@ import (
 	"go/token"
 	"go/types"
 	"strings"
+	"wvsa/internal/load"
 
 	"golang.org/x/tools/go/ssa"
 
@@ -184,6 +185,20 @@ func c18(c *Ctx) {
 		R.Check("C18.schedule-sources", R.Key("C18.schedule-sources", shortFn(s.Fn), "alloc:processorRequestSchedule"), c.sitePos(p, s), "schedule requests come only from New (root), runGroup (fresh children) and processGC (after reset)", ok, "created in "+fname(s.Fn))
 	}
 	R.Floor("C18.schedule-sources", ns, 3)
+	// runGroup schedules exactly the nodes it has just created: the dn of every schedule request
+	// it sends is the dn() of a node returned by newNode in the same call (scheduling a child that
+	// an earlier Run/RunGroup call of the same parent already started runs that service twice)
+	nfresh := 0
+	for _, s := range allocsOf(p, schedT) {
+		if top(s.Fn) != runGroup {
+			continue
+		}
+		nfresh++
+		vals, _ := allocStores(s.Instr.(*ssa.Alloc))
+		bad := c18dnNotFresh(p, vals["dn"])
+		R.Check("C18.schedule-sources", R.Key("C18.schedule-sources", shortFn(s.Fn), "fresh-children-only"), c.sitePos(p, s), "runGroup schedules only the nodes created by this call", vals["dn"] != nil && bad == "", bad)
+	}
+	R.Floor("C18.schedule-sources.fresh", nfresh, 1)
 	for _, callee := range []*ssa.Function{sched, died, gc, kill} {
 		for _, s := range callsTo(p, callee) {
 			_, isGo := s.Instr.(*ssa.Go)
@@ -1050,4 +1065,135 @@ func c18rangedMap(v ssa.Value, depth int) ssa.Value {
 func isBoolType(t types.Type) bool {
 	b, ok := t.Underlying().(*types.Basic)
 	return ok && b.Info()&types.IsBoolean != 0
+}
+
+// c18dnNotFresh follows the dn of a schedule request back through captured variables, maps,
+// slices (their updates and appends) and ranges to the dn() calls it stems from, and returns a
+// description of the first one whose receiver is not the result of a newNode call ("" if all are).
+func c18dnNotFresh(p *load.Program, v ssa.Value) string {
+	if v == nil {
+		return "dn of the schedule request is not set"
+	}
+	newNode := must(p.Func(pkgSup, "newNode"), "newNode")
+	dnFn := must(p.Method(pkgSup, "node", "dn"), "node.dn")
+	bad := ""
+	n := 0
+	seen := map[ssa.Value]bool{}
+	// containers: every value put into map/slice c
+	cseen := map[ssa.Value]bool{}
+	var contents func(c ssa.Value, visit func(ssa.Value))
+	contents = func(c ssa.Value, visit func(ssa.Value)) {
+		if c == nil || cseen[c] {
+			return
+		}
+		cseen[c] = true
+		for _, leaf := range valueLeaves(c) {
+			if leaf != c {
+				if cseen[leaf] {
+					continue
+				}
+				cseen[leaf] = true
+			}
+			switch x := leaf.(type) {
+			case *ssa.MakeMap:
+				if x.Referrers() != nil {
+					for _, r := range *x.Referrers() {
+						if mu, ok := r.(*ssa.MapUpdate); ok && mu.Map == ssa.Value(x) {
+							visit(mu.Value)
+						}
+					}
+				}
+				// updates through a captured cell holding the same map
+				for _, f := range withAnon(top(x.Parent())) {
+					eachInstr(f, func(i ssa.Instruction) {
+						if mu, ok := i.(*ssa.MapUpdate); ok && mu.Map != ssa.Value(x) {
+							for _, l2 := range valueLeaves(mu.Map) {
+								if l2 == ssa.Value(x) {
+									visit(mu.Value)
+								}
+							}
+						}
+					})
+				}
+			case *ssa.Call:
+				if b, ok := x.Call.Value.(*ssa.Builtin); ok && b.Name() == "append" && len(x.Call.Args) == 2 {
+					contents(x.Call.Args[0], visit)
+					// the appended elements: stores into the varargs array behind Args[1]
+					if sl, ok := x.Call.Args[1].(*ssa.Slice); ok {
+						if al, ok := sl.X.(*ssa.Alloc); ok && al.Referrers() != nil {
+							for _, r := range *al.Referrers() {
+								if ia, ok := r.(*ssa.IndexAddr); ok && ia.Referrers() != nil {
+									for _, rr := range *ia.Referrers() {
+										if st, ok := rr.(*ssa.Store); ok && st.Addr == ssa.Value(ia) {
+											visit(st.Val)
+										}
+									}
+								}
+							}
+						}
+					} else {
+						contents(x.Call.Args[1], visit)
+					}
+				}
+			case *ssa.Slice:
+				contents(x.X, visit)
+			}
+		}
+	}
+	var walk func(x ssa.Value, d int)
+	walk = func(x ssa.Value, d int) {
+		if x == nil || d > 10 || seen[x] || bad != "" {
+			return
+		}
+		seen[x] = true
+		for _, leaf := range valueLeaves(x) {
+			switch y := leaf.(type) {
+			case *ssa.Call:
+				if y.Call.StaticCallee() == dnFn && len(y.Call.Args) == 1 {
+					n++
+					fresh := false
+					for _, rl := range valueLeaves(y.Call.Args[0]) {
+						if cl, ok := rl.(*ssa.Call); ok && cl.Call.StaticCallee() == newNode {
+							fresh = true
+						} else {
+							fresh = false
+							bad = "a scheduled dn is " + facts.Term(y) + ", whose node " + facts.Term(rl) + " is not one created by this call"
+							return
+						}
+					}
+					if !fresh && bad == "" {
+						bad = "a scheduled dn is " + facts.Term(y) + ", whose node is not one created by this call"
+					}
+					continue
+				}
+				bad = "dn comes from " + facts.Term(y)
+			case *ssa.Lookup:
+				contents(y.X, func(e ssa.Value) { walk(e, d+1) })
+			case *ssa.Extract:
+				// value of a range over a map or slice
+				if nx, ok := y.Tuple.(*ssa.Next); ok {
+					if rg, ok := nx.Iter.(*ssa.Range); ok {
+						contents(rg.X, func(e ssa.Value) { walk(e, d+1) })
+						continue
+					}
+				}
+				bad = "dn comes from " + facts.Term(y)
+			case *ssa.UnOp:
+				if y.Op == token.MUL {
+					if ia, ok := y.X.(*ssa.IndexAddr); ok {
+						contents(ia.X, func(e ssa.Value) { walk(e, d+1) })
+						continue
+					}
+				}
+				bad = "dn comes from " + facts.Term(y)
+			default:
+				bad = "dn comes from " + facts.Term(leaf)
+			}
+		}
+	}
+	walk(v, 0)
+	if bad == "" && n == 0 {
+		bad = "no dn() call found behind the scheduled dn"
+	}
+	return bad
 }
